@@ -26,6 +26,8 @@ Bodies(s) ==
      { s }
   \cup { Bin(op, s, t) : op \in {"add", "sub", "mul", "div"}, t \in (IF Tier = "quick" THEN Atoms \cup {Bin("mul", X, Y), Bin("pow", X, Two), Bin("pow", Y, HalfE)} ELSE T1) }
   \cup { If(Bin("lt", s, t), a, b) : t \in {X, U("m"), Two}, a \in {X, Y}, b \in {Y, U("s"), Bin("mul", X, X)} }
+  \* == / != put no Dim bound on their operands by themselves: the printed signature may have an unbounded type parameter
+  \cup { If(Bin("eq", s, t), a, b) : t \in {X, Y, U("m")}, a \in {X, Y}, b \in {X, Y} }
   \cup { Lib2(s, t) : t \in Atoms }
   \cup { Lib1(Bin("mul", s, t)) : t \in {X, Y, U("m")} }
   \cup { Bin("pow", Bin("add", s, t), Two) : t \in {Y, U("m")} }
